@@ -331,7 +331,7 @@ func init() {
 			}
 			repls := []string{"verifa", "verifb", "verifc"}
 			if k%2 == 1 {
-				repls = []string{"verif-z", "verif-y", "verif-x", "verif-w", "verif-v"}
+				repls = []string{"verif-z", "Verif-Y", "verif-x", "VERIF-W", "verif-v"}
 			}
 			var add []*der.Node
 			for _, ch := range l.Children {
